@@ -431,3 +431,12 @@ def run(ctx):
     r4_idle_vs_closed(ctx)
     r5_tolerance(ctx)
     r7_stream_error_becomes_rst(ctx)
+
+
+_run_rules = run
+
+
+def run(ctx):
+    _run_rules(ctx)
+    from .. import boundaries
+    boundaries.check(ctx, 'C09.RB', 'C09')
